@@ -9,7 +9,8 @@ Per run:
   3. The harness replays them on the REAL hyperdriver::service::Timeout<ConnectionPoolService<..>> under paused
      tokio time (step-wise comparison of poll results and observable state = conformance; a difference is DRIFT,
      never an alarm) and records the real trace; every run ends with drain + probe.
-  4. The harness drives seeded random walks over the really enabled actions (incl. Advance) and records them.
+  4. The harness drives seeded random walks over the really enabled actions (incl. Advance) and records them; and
+     it runs clients built by client/builder.rs (with_timeout, default, ...) against a silent / answering duplex peer.
   5. TLC evaluates the C19 clauses of TimeoutObs.tla on every recorded real step.  Only a clause falsified there
      is a VIOLATION.
 """
@@ -21,12 +22,13 @@ import vlib
 
 PREFIX = "C19:"
 WORKERS = 6
+CHUNK = 60000
 
 MC = {"quick": "Timeout_quick.cfg", "thorough": "Timeout_thorough.cfg"}
 GEN = {"quick": [("Timeout_gen.cfg", 500, 24), ("Timeout_gen_deep.cfg", 250, 30)],
-       "thorough": [("Timeout_gen.cfg", 10000, 24), ("Timeout_gen_deep.cfg", 5000, 30)]}
+       "thorough": [("Timeout_gen.cfg", 4000, 24), ("Timeout_gen_deep.cfg", 2000, 30)]}
 WALK = {"quick": ["--runs", 500, "--steps", 40, "--maxreq", 4],
-        "thorough": ["--runs", 12000, "--steps", 45, "--maxreq", 5]}
+        "thorough": ["--runs", 6000, "--steps", 45, "--maxreq", 5]}
 ASBUILT = [("TimerFirst", "Timeout_asbuilt_TimerFirst.cfg"), ("LazyTimer", "Timeout_asbuilt_LazyTimer.cfg"),
            ("KeepInner", "Timeout_asbuilt_KeepInner.cfg"), ("ZeroNoTimeout", "Timeout_asbuilt_ZeroNoTimeout.cfg"),
            ("NoArm", "Timeout_asbuilt_NoArm.cfg"), ("Pool:D2", "Timeout_asbuilt_D2.cfg")]
@@ -57,6 +59,17 @@ def cfg_props(cfg):
     return inv, prop
 
 
+def action_coverage(out):
+    """Per-action counts of a -coverage run: {action: (distinct, taken)}.  The disjunct `\\E hd \\in wr : TWhenReady(hd)`
+    cannot be split by TLC (non-constant set) and is reported as a located part of TNext."""
+    import re
+    cov = {}
+    for m in re.finditer(r"<(\w+) line \d+, col \d+ to line \d+, col \d+ of module Timeout(?: \([\d ]+\))?>: (\d+):(\d+)", out):
+        name = "TWhenReady" if m.group(1) == "TNext" else m.group(1)
+        cov[name] = (int(m.group(2)), int(m.group(3)))
+    return cov
+
+
 def monitor(pid, trace_path):
     """Runs TimeoutObs.tla over a recorded trace; returns the list of falsified clauses."""
     r = vlib.tlc_trace("TimeoutObs.tla", "TimeoutObs.cfg", pid, trace_path, timeout=3000)
@@ -67,6 +80,22 @@ def monitor(pid, trace_path):
     if len(v) != 1:
         raise vlib.ToolError("TimeoutObs printed no report")
     return v[0], r
+
+
+def chunks(path, size):
+    """The trace file in pieces of about `size` records, cut at Reset records."""
+    cur = []
+    with open(path) as f:
+        for line in f:
+            if not line.strip():
+                continue
+            rec = json.loads(line)
+            if rec["e"] == "Reset" and len(cur) >= size:
+                yield cur
+                cur = []
+            cur.append(rec)
+    if cur:
+        yield cur
 
 
 def behaviour_of(trace, base):
@@ -102,6 +131,8 @@ def violation_key(v, recs):
     i = v["l"] - v["base"]          # index into recs of the record at which the clause failed
     rec = recs[i] if 0 <= i < len(recs) else {}
     pre = recs[i - 1]["obs"] if i >= 1 else reset["obs"]
+    if rec.get("e") == "Wiring":
+        return f"{v['tag'][len(PREFIX):]}@wiring:{rec['pool']}:{rec['stage']}"
     r = v.get("r", 0)
     stage = rec.get("stage") or stage_of(pre, r)
     proto = "-"
@@ -123,8 +154,10 @@ def class_table(*summaries):
     by_stage = {st: sum(n for k, n in seen.items() if k.startswith(st + ":")) for st in STAGES}
     cells = [f"{st}:{p}:{c}:dur{d}" for st in STAGES for p in ("h1", "h2") for c in ("cap", "nocap") for d in (0, 1, 3)]
     # with a zero duration a request resolves at its first poll: it cannot be awaiting a response it was handed
-    # off for in an earlier poll, and its own dial cannot have got past connecting
-    impossible = {c for c in cells if c.endswith("dur0") and (c.startswith("awaiting") or c.startswith("own-dial-handshaking"))}
+    # off for in an earlier poll, and its own dial cannot have got past connecting; without continue_after_preemption
+    # no connection ever comes into existence then (the dial is dropped with the request), so nothing can be handed off
+    impossible = {c for c in cells if c.endswith("dur0") and (c.startswith("awaiting") or c.startswith("own-dial-handshaking")
+                                                               or (c.startswith("sending") and ":nocap:" in c))}
     missing = sorted(c for c in cells if c not in seen and c not in impossible)
     return seen, by_stage, missing
 
@@ -147,13 +180,30 @@ def run(pid, tier, seed, t0):
         "bounds: the model is exhaustive only within the constants of the configuration; beyond that seeded simulation "
         "and random walks; one origin",
     ]
-    # ---- 1. model check (intended design)
-    mc = vlib.tlc("MC_Timeout.tla", MC[tier], pid, workers=WORKERS, timeout=3400, coverage=(tier == "quick"))
+    # ---- 1. model check (intended design); per-action coverage on the small instance (coverage slows TLC 6x)
+    mc = vlib.tlc("MC_Timeout.tla", MC[tier], pid, workers=WORKERS, timeout=3400)
     if not (mc.finished and mc.violated is None):
         vlib.log(mc.out[-4000:])
         raise vlib.ToolError(f"model check of the intended design failed: {mc.violated}")
+    cv = vlib.tlc("MC_Timeout.tla", "Timeout_cov.cfg", pid, workers=WORKERS, timeout=3400, coverage=True)
+    if not (cv.finished and cv.violated is None):
+        vlib.log(cv.out[-4000:])
+        raise vlib.ToolError(f"model check (coverage instance) of the intended design failed: {cv.violated}")
+    extra = []
+    if tier == "thorough":
+        # 3 requests / 3 dials / all faults do not finish exhaustively (> 25 min): random simulation with the same
+        # invariants and action properties
+        import re
+        m3 = vlib.tlc("MC_Timeout.tla", "Timeout_sim3.cfg", pid, workers=WORKERS, timeout=3400, simulate=150000, depth=100, seed=seed)
+        if m3.violated is not None:
+            vlib.log(m3.out[-4000:])
+            raise vlib.ToolError(f"simulation (3 requests) of the intended design violates {m3.violated}")
+        pm = re.findall(r"Progress: (\d+) states checked, (\d+) traces generated", m3.out)
+        extra.append({"cfg": "Timeout_sim3.cfg", "mode": "simulation", "constants": cfg_constants("Timeout_sim3.cfg"),
+                      "states_checked": int(pm[-1][0]) if pm else 0, "traces": int(pm[-1][1]) if pm else 0})
     live = {}
-    for name, cfg in ([("ProbeCompletes", "Timeout_probe.cfg")] + ([("C19Live", "Timeout_live.cfg")] if tier == "thorough" else [])):
+    for name, cfg in ([("ProbeCompletes", "Timeout_probe.cfg")] if tier == "quick" else
+                      [("ProbeCompletes", "Timeout_probe_thorough.cfg"), ("C19Live", "Timeout_live.cfg")]):
         lr = vlib.tlc("MC_Timeout.tla", cfg, pid, workers=WORKERS, timeout=3400)
         if not (lr.finished and lr.violated is None):
             vlib.log(lr.out[-4000:])
@@ -164,15 +214,15 @@ def run(pid, tier, seed, t0):
         # each deviation must be caught by the model properties (the properties are not vacuous)
         for name, cfg in ASBUILT:
             ar = vlib.tlc("MC_Timeout.tla", cfg, pid, workers=WORKERS, timeout=3400)
-            asbuilt[name] = ar.violated
-            if ar.violated is None:
+            asbuilt[name] = ar.violated or ("<temporal>" if ar.rc == 13 else None)   # rc 13: liveness violation
+            if asbuilt[name] is None:
                 raise vlib.ToolError(f"as-built variant {name} is not caught by the model properties")
 
     # ---- 2. generate behaviours
     behs = []
     gen_info = []
     for i, (cfg, num, depth) in enumerate(GEN[tier]):
-        g = vlib.tlc("MC_Timeout.tla", cfg, pid, workers=1, timeout=3400, simulate=num, depth=4 * depth, seed=seed + i)
+        g = vlib.tlc("MC_TimeoutGen.tla", cfg, pid, workers=1, timeout=3400, simulate=num, depth=4 * depth, seed=seed + i)
         b = g.printed("REPLAY")
         gen_info.append({"cfg": cfg, "simulated": num, "behaviours": len(b)})
         behs += b
@@ -186,33 +236,45 @@ def run(pid, tier, seed, t0):
     rep = json.loads(vlib.run_harness("timeout", ["replay", "--in", sched, "--out", rtrace]))
     wtrace = os.path.join(d, "walk-trace.ndjson")
     wk = json.loads(vlib.run_harness("timeout", ["walk", "--seed", seed, "--out", wtrace] + WALK[tier]))
+    # the wiring of the layer in client/builder.rs (clients built by the Builder over a duplex transport); its
+    # records are appended to the walk trace (one monitor run)
+    wiring = os.path.join(d, "wiring-trace.ndjson")
+    wi = json.loads(vlib.run_harness("timeout", ["wiring", "--out", wiring]))
+    with open(wtrace, "a") as f:
+        f.write(open(wiring).read())
 
-    # ---- 5. property monitor (TLC) on the real traces
+    # ---- 5. property monitor (TLC) on the real traces (in chunks of whole runs: the JSON of a thorough trace is large)
     all_viol = []
     nrec = 0
     samples = []
+    per_key = {}
     for path, kind in ((rtrace, "replayed model behaviour"), (wtrace, "random walk")):
-        viol, _ = monitor(pid, path)
-        trace = vlib.read_ndjson(path)
-        nrec += len(trace)
-        samples.append({"kind": kind + " (real trace, first records)", "records": [strip(x) for x in trace[:14]]})
-        per_key = {}
-        for v in viol:
-            if not v["tag"].startswith(PREFIX):
-                continue
-            recs = behaviour_of(trace, v["base"])
-            key = violation_key(v, recs)
-            per_key[key] = per_key.get(key, 0) + 1
-            if per_key[key] > 2 or len(verdict.violations) >= 40:
-                continue
-            at = v["l"] - v["base"]
-            verdict.violation(key, f"clause {v['tag']} falsified at record {at} of run {v['run']} ({os.path.basename(path)}): "
-                                   f"{strip(recs[at]) if at < len(recs) else ''}",
-                              {"kind": "timeout-trace", "clause": v["tag"], "at": at, "request": v.get("r", 0), "records": recs})
-        all_viol += [v for v in viol if v["tag"].startswith(PREFIX)]
+        first = True
+        for trace in chunks(path, CHUNK):
+            part = os.path.join(d, "monitor-part.ndjson")
+            vlib.write_ndjson(part, trace)
+            viol, _ = monitor(pid, part)
+            nrec += len(trace)
+            if first:
+                samples.append({"kind": kind + " (real trace, first records)", "records": [strip(x) for x in trace[:14]]})
+                first = False
+            for v in viol:
+                if not v["tag"].startswith(PREFIX):
+                    continue
+                recs = behaviour_of(trace, v["base"])
+                key = violation_key(v, recs)
+                per_key[key] = per_key.get(key, 0) + 1
+                if per_key[key] > 2 or len(verdict.violations) >= 40:
+                    continue
+                at = v["l"] - v["base"]
+                verdict.violation(key, f"clause {v['tag']} falsified at record {at} of run {v['run']} ({os.path.basename(path)}): "
+                                       f"{strip(recs[at]) if at < len(recs) else ''}",
+                                  {"kind": "timeout-trace", "clause": v["tag"], "at": at, "request": v.get("r", 0), "records": recs})
+            all_viol += [v for v in viol if v["tag"].startswith(PREFIX)]
+            os.remove(part)
 
     code, unlisted = verdict.finish()
-    cov = mc.coverage()
+    cov = action_coverage(cv.out)
     never = sorted(a for a, (dist, taken) in cov.items() if taken == 0)
     seen, by_stage, missing = class_table(rep, wk)
     inv, prop = cfg_props(MC[tier])
@@ -227,13 +289,17 @@ def run(pid, tier, seed, t0):
                 "followed by drain (every outstanding request driven to its deadline or completion) and a probe",
         "exhaustive": False,
         "model": {"module": "MC_Timeout.tla (Timeout.tla EXTENDS Pool.tla)", "cfg": MC[tier], "constants": cfg_constants(MC[tier]),
-                  "invariants": inv, "action_properties": prop, "liveness": live, "asbuilt_variants_caught_by": asbuilt},
+                  "invariants": inv, "action_properties": prop, "further_instances": extra,
+                  "coverage_instance": {"cfg": "Timeout_cov.cfg", "constants": cfg_constants("Timeout_cov.cfg"), "states": cv.distinct,
+                                        "transitions": cv.generated},
+                  "liveness": live, "asbuilt_variants_caught_by": asbuilt},
         "tlc_coverage": {a: {"distinct": v[0], "taken": v[1]} for a, v in sorted(cov.items())},
         "actions_never_taken": never,
         "generation": gen_info,
         "replay": {k: rep[k] for k in ("behaviours", "conformant", "drifted", "steps", "panics", "drift_kinds", "drift_samples", "outcomes")},
         "drift": rep["drifted"],
         "walk": {k: wk[k] for k in ("runs", "steps", "panics", "actions", "outcomes")},
+        "builder_wiring_cases": wi["cases"],
         "expiry_classes_on_real_code": {"by_stage": by_stage, "cells_seen": len(seen), "cells_missing": missing},
         "monitor_records": nrec,
         "clauses_falsified": sorted({v["tag"] for v in all_viol}),
@@ -252,15 +318,24 @@ def replay(pid, path):
     obj = json.load(open(path))
     recs = obj["replay"]["records"]
     d = vlib.outdir(pid)
+    # the recorded actions up to the drain are re-executed (leniently: on different code an action may not be
+    # enabled any more); then the harness drains and probes the way the recorded run was drained
     steps = []
+    drain = None
     for r in recs[1:]:
+        if r["e"] == "Drain":
+            drain = r
+            break
         ev = {k: r[k] for k in ("e", "r", "h2", "c", "d", "ok", "dt")}
         steps.append({"ev": ev, "obs": {}})
     sched = os.path.join(d, "replay-sched.ndjson")
     c = recs[0]["cfg"]
-    vlib.write_ndjson(sched, [{"cfg": {"cap": c["cap"], "maxIdle": c["maxIdle"], "idleTimeout": 0, "dur": c["dur"]}, "steps": steps}])
+    cfg = {"cap": c["cap"], "maxIdle": c["maxIdle"], "idleTimeout": 0, "dur": c["dur"]}
+    if drain is not None:
+        cfg.update(expire_first=drain["ok"], probe_h2=drain["h2"])
+    vlib.write_ndjson(sched, [{"cfg": cfg, "steps": steps}])
     rtrace = os.path.join(d, "replay-again.ndjson")
-    vlib.run_harness("timeout", ["replay", "--lenient", "--no-drain", "--in", sched, "--out", rtrace])
+    vlib.run_harness("timeout", ["replay", "--lenient", "--in", sched, "--out", rtrace])
     viol, _ = monitor(pid, rtrace)
     mine = [v for v in viol if v["tag"].startswith(PREFIX)]
     if mine:
